@@ -11,6 +11,7 @@ import (
 	"os/exec"
 	"path/filepath"
 	"strings"
+	"sync"
 	"testing"
 	"time"
 
@@ -22,7 +23,7 @@ import (
 type c16Child struct {
 	cmd    *exec.Cmd
 	addr   string
-	stderr *bytes.Buffer
+	stderr *c16Buf
 	dir    string
 	done   chan struct{}
 }
@@ -37,8 +38,11 @@ func c16StartChild() (*c16Child, error) {
 		if err != nil {
 			continue
 		}
-		time.Sleep(150 * time.Millisecond)
-		if c.alive() && !strings.Contains(c.stderr.String(), "Failed to start Olric") {
+		// "Olric bindAddr" is logged once this very process listens on its RESP port
+		for dl := time.Now().Add(10 * time.Second); time.Now().Before(dl) && c.alive() && !strings.Contains(c.stderr.String(), "Olric bindAddr"); {
+			time.Sleep(20 * time.Millisecond)
+		}
+		if c.alive() && strings.Contains(c.stderr.String(), "Olric bindAddr") && !strings.Contains(c.stderr.String(), "Failed to start Olric") {
 			return c, nil
 		}
 		err = fmt.Errorf("olric-server exited during start: %s", tailOf(c.stderr.String(), 400))
@@ -83,8 +87,8 @@ client:
   readTimeout: 3s
   writeTimeout: 3s
 logging:
-  verbosity: 1
-  level: ERROR
+  verbosity: 2
+  level: INFO
   output: stderr
 memberlist:
   environment: local
@@ -103,7 +107,7 @@ dmaps:
 	if err := os.WriteFile(cfgPath, []byte(cfg), 0o644); err != nil {
 		return nil, err
 	}
-	c := &c16Child{addr: fmt.Sprintf("127.0.0.1:%d", p1), stderr: &bytes.Buffer{}, dir: dir, done: make(chan struct{})}
+	c := &c16Child{addr: fmt.Sprintf("127.0.0.1:%d", p1), stderr: &c16Buf{}, dir: dir, done: make(chan struct{})}
 	c.cmd = exec.Command(bin, "-c", cfgPath)
 	c.cmd.Stderr = c.stderr
 	c.cmd.Stdout = c.stderr
@@ -125,6 +129,30 @@ dmaps:
 	}
 	c.stop()
 	return nil, fmt.Errorf("olric-server did not answer PING within 10 s")
+}
+
+// c16Buf collects the child's output; the process writes it while the test reads it
+type c16Buf struct {
+	mu sync.Mutex
+	b  bytes.Buffer
+}
+
+func (b *c16Buf) Write(p []byte) (int, error) {
+	b.mu.Lock()
+	defer b.mu.Unlock()
+	if b.b.Len() > 4<<20 {
+		// keep the tail: the start-up lines are no longer needed and a panic comes last
+		tail := append([]byte(nil), b.b.Bytes()[b.b.Len()-(1<<20):]...)
+		b.b.Reset()
+		b.b.Write(tail)
+	}
+	return b.b.Write(p)
+}
+
+func (b *c16Buf) String() string {
+	b.mu.Lock()
+	defer b.mu.Unlock()
+	return b.b.String()
 }
 
 func tailOf(s string, n int) string {
@@ -278,7 +306,9 @@ func TestVerifC16E2E(t *testing.T) {
 	check := func(s c16Stream) bool {
 		sendStream(child.addr, s)
 		// the member must still be there and serve a fresh connection
-		for i := 0; i < 3; i++ {
+		// a live process that answers no PING (3 s each) for about a minute is wedged; on a loaded machine a single
+		// PING may well take seconds
+		for i := 0; i < 20; i++ {
 			if child.ping() {
 				return true
 			}
